@@ -19,5 +19,5 @@ contract(BTY + "._decide_line_reader", params={"raw_graph": O, "source_file": O,
              "implies(raw_graph is None and compression_mode == 'xz', has_class(result, 'XzFileLineReader') and result._xz_file == source_file)"],
     raises=[("ValueError", "(raw_graph is None) == (source_file is None)"),
             ("ValueError", "raw_graph is None and not (compression_mode is None or compression_mode == 'gz' or compression_mode == 'zip' or compression_mode == 'xz')")],
-    modifies=["alloc"], props=["C08"],
+    modifies=["alloc"], props=["C08", "C04"],
     note="exactly one of raw string / file; the reader class and its arguments are the tabulated ones for every (source, compression) combination")
